@@ -399,6 +399,18 @@ int os_printf_plus(const char *format, ...) {
       }
   return 0;
 }
+/* supla_log: supla-common/log.c is replaced (not an anchor of any property): its glibc retry loop
+ * never terminates on the malformed format "Timeout full_time * %d%" in supla_esp_rs_fb.c. */
+void supla_vlog(int pri, const char *message) { os_printf_plus("%s\r\n", message); }
+void supla_log(int pri, const char *fmt, ...) {
+  char b[512];
+  va_list ap;
+  va_start(ap, fmt);
+  int n = vsnprintf(b, sizeof(b), fmt, ap);
+  va_end(ap);
+  if (n < 0) snprintf(b, sizeof(b), "%s", fmt);
+  supla_vlog(pri, b);
+}
 int ets_snprintf(char *str, unsigned int size, const char *format, ...) {
   va_list ap;
   va_start(ap, format);
